@@ -1,7 +1,9 @@
 """C19 — noise attachment is faithful and both noisy simulation modes agree.
 
 Ingredients
-  * theorems: lean/QV/Props/C19.lean (+C19b) about lean/QV/Model/Noise.lean;
+  * theorems: lean/QV/Props/C19.lean (+C19b) about lean/QV/Model/Noise.lean; C19c about
+    lean/QV/Model/NoiseIBMQ.lean (`IBMQNoiseModel.from_dict` inside the model, tied by
+    tools/props/C19_ibmq.py through lean/DriverC19b.lean);
   * tie: random circuits x random rule lists through the REAL `NoiseModel.apply`,
     `IBMQNoiseModel.from_dict(...).apply` and `Circuit.with_pauli_noise` vs the Lean model
     (queue structure compared exactly); exact dyadic trajectories / density matrices through
@@ -1599,8 +1601,13 @@ def run(ctx):
     MODULES, THEOREMS = registry(PROP)
     ctx.theorems = THEOREMS
     build_and_audit(ctx, PROP, MODULES, THEOREMS)
+    import sys
+
+    from props import C19_ibmq
+
     nb = qgates.np_backend()
-    suites = [("apply", lambda: apply_suite(ctx, nb)), ("ibmq", lambda: ibmq_suite(ctx, nb)), ("pauli_map", lambda: pauli_suite(ctx, nb)),
+    suites = [("apply", lambda: apply_suite(ctx, nb)), ("ibmq", lambda: ibmq_suite(ctx, nb)),
+              ("ibmq_model", lambda: C19_ibmq.ibmq_model_suite(ctx, nb, sys.modules[__name__])), ("pauli_map", lambda: pauli_suite(ctx, nb)),
               ("zero_strength", lambda: zero_suite(ctx, nb)), ("exec", lambda: exec_suite(ctx)), ("trajectory", lambda: trajectory_suite(ctx)),
               ("full_weight", lambda: full_weight_suite(ctx)), ("history", lambda: history_suite(ctx, nb)),
               ("repeated", lambda: repeated_suite(ctx))]
@@ -1620,7 +1627,9 @@ def run(ctx):
         "model, exact on class / qubits / coefficients / operator matrices; no-mutation and second-call checks; zero-strength models; "
         "exact dyadic execution of unitary-mixture queues (forced tapes, density matrix, trajectory mean) vs the Lean model; all "
         "trajectories of real noisy circuits vs the density-matrix run to 1e-10; execute_circuit_repeated with a forced tape (exact) "
-        "and seeded (statistical)")
+        "and seeded (statistical); IBMQNoiseModel.from_dict: the Lean transliteration of the rule generation (fromDict) + attachNoise and the "
+        "documented per-gate queue (ibmqSpec, proved equal) vs the real from_dict(...).apply on generated dictionaries in every documented "
+        "form (global number / per-qubit dict per entry, key orders, pair keys in both orientations, readout value forms, raising corners)")
     ctx.assumptions.append("qubit order inside channels created by a rule WITH a qubit filter is not compared (it comes from a Python set); "
                            "generated multi-qubit operators of such rules are symmetric under qubit exchange")
     ctx.assumptions.append("the law of large numbers (mean of i.i.d. shots converges to the expectation proved in T19_trajectory_mean) is not formalised; "
